@@ -990,6 +990,23 @@ impl TypeSpace {
             (None, None, None)
         };
 
+        // An exclusive bound excludes a default equal to it. Beyond 2^53 the
+        // +/- 1.0 above is absorbed by f64 rounding so the inclusive bounds
+        // can't be relied on to catch that.
+        if let (Some(validation), Some(default)) = (
+            validation,
+            metadata
+                .as_ref()
+                .and_then(|m| m.default.as_ref())
+                .and_then(|v| v.as_f64()),
+        ) {
+            if validation.exclusive_minimum.map_or(false, |e| default <= e)
+                || validation.exclusive_maximum.map_or(false, |e| default >= e)
+            {
+                return Err(Error::InvalidValue);
+            }
+        }
+
         // Ordered from most- to least-restrictive.
         // JSONSchema format, Rust Type, Rust NonZero Type, Rust type min, Rust type max
         let formats: &[(&str, &str, &str, f64, f64)] = &[
